@@ -58,7 +58,11 @@ VARIABLES
   used,    \* ghost: (key term, nonce) pairs used for encryption
   bad,     \* ghost: property violations detected inside actions
   last,    \* the action just taken and its arguments (read by the binder)
-  out      \* what the action handed to the application / returned (the oracle)
+  out      \* what the action handed to the application / returned (the oracle);
+           \* for errors, why = "now": the call fails with the bytes it has,
+           \* "auth": the length was read correctly and the AEAD check fails,
+           \* "desync": the length field itself decrypts to garbage, so the
+           \* receiver fails on whatever it reads next or when the stream ends
 
 vars == <<sc, st, wire, closed, nseq, pend, napp, eaten, clean, nfaults, used, bad, last, out>>
 
@@ -111,9 +115,12 @@ InitSt == [ph |-> "init", sec |-> <<"none", "none">>, sL |-> 0, sP |-> 0, rL |->
 
 NoOut == [kind |-> "none"]
 
+\* the scenarios; a model may override this with an explicit set of records
+ScenarioSpace == [gI : GarbageLens, gR : GarbageLens, dI : DecoyCounts, dR : DecoyCounts,
+                  hello : Hellos, pm : PrefixMatches]
+
 Init ==
-  /\ sc \in [gI : GarbageLens, gR : GarbageLens, dI : DecoyCounts, dR : DecoyCounts,
-             hello : Hellos, pm : PrefixMatches]
+  /\ sc \in ScenarioSpace
   /\ (sc.hello # "v2" => sc.pm = 0 /\ sc.gI = 0 /\ sc.dI = 0)
   /\ st = [e \in E |-> IF e = "R" THEN [InitSt EXCEPT !.ph = "wantkey"] ELSE InitSt]
   /\ wire = [e \in E |-> <<>>]
@@ -162,21 +169,26 @@ RRecvKey ==
   /\ wire["I"] # <<>>
   /\ LET u == Head(wire["I"]) IN
      /\ wire' = [wire EXCEPT !["I"] = Tail(@),
-                             !["R"] = IF u.tam = "cut" \/ u.id.val = "v1" THEN @
-                                      ELSE IF u.id.val = "v1wrong" THEN Put("R", KeyAndGarbage("R", "kR", 0))
+                             !["R"] = IF u.tam = "cut0" \/ (u.tam # "cut" /\ u.id.val = "v1") THEN @
+                                      ELSE IF u.tam = "cut" \/ u.id.val = "v1wrong" THEN Put("R", KeyAndGarbage("R", "kR", 0))
                                       ELSE LET s == <<IF u.tam = "none" THEN u.id.val ELSE "X", "kR">>
                                                kg == KeyAndGarbage("R", "kR", 0) IN
                                            Put("R", kg \o HsUnits("R", s, Len(kg)))]
      /\ Eat("I", u)
-     /\ IF u.tam = "cut"
-        THEN /\ st' = [st EXCEPT !["R"].ph = "err"]
-             /\ out' = [kind |-> "err"] /\ nseq' = nseq /\ used' = used /\ bad' = bad
+     /\ IF u.tam \in {"cut", "cut0"}
+        THEN \* the stream ends inside the key: with "cut" the first byte that
+             \* differs from the v1 prefix still arrived, so key || garbage was
+             \* already written when the read of the remaining bytes fails
+             /\ st' = [st EXCEPT !["R"].ph = "err"]
+             /\ out' = [kind |-> "err", why |-> "now"]
+             /\ nseq' = [nseq EXCEPT !["R"] = IF u.tam = "cut" THEN Len(KeyAndGarbage("R", "kR", 0)) ELSE @]
+             /\ used' = used /\ bad' = bad
         ELSE IF u.id.val = "v1"
         THEN /\ st' = [st EXCEPT !["R"].ph = "v1"]
              /\ out' = [kind |-> "usev1", consumed |-> 16] /\ nseq' = nseq /\ used' = used /\ bad' = bad
         ELSE IF u.id.val = "v1wrong"
         THEN /\ st' = [st EXCEPT !["R"].ph = "err"]
-             /\ out' = [kind |-> "err"]
+             /\ out' = [kind |-> "err", why |-> "now"]
              /\ nseq' = [nseq EXCEPT !["R"] = Len(KeyAndGarbage("R", "kR", 0))]
              /\ used' = used /\ bad' = bad
         ELSE LET s == <<IF u.tam = "none" THEN u.id.val ELSE "X", "kR">>
@@ -199,7 +211,7 @@ IRecvKey ==
      /\ IF u.tam = "cut"
         THEN /\ st' = [st EXCEPT !["I"].ph = "err"]
              /\ wire' = [wire EXCEPT !["R"] = Tail(@)]
-             /\ out' = [kind |-> "err"] /\ nseq' = nseq /\ used' = used /\ bad' = bad
+             /\ out' = [kind |-> "err", why |-> "now"] /\ nseq' = nseq /\ used' = used /\ bad' = bad
         ELSE /\ st' = [st EXCEPT !["I"].ph = "scan", !["I"].sec = s,
                                  !["I"].sL = Decoys("I") + 1, !["I"].sP = Decoys("I") + 1]
              /\ wire' = [wire EXCEPT !["R"] = Tail(@), !["I"] = Put("I", HsUnits("I", s, nseq["I"]))]
@@ -211,7 +223,7 @@ IRecvKey ==
 
 \* the garbage-terminator scan: bytes are absorbed until the last 16 equal the
 \* peer's terminator; at most MaxGarbage + 16 bytes are read.
-RecvScan(e) ==
+RecvScanE(e) ==
   /\ st[e].ph = "scan"
   /\ wire[P(e)] # <<>>
   /\ LET u == Head(wire[P(e)])
@@ -220,13 +232,13 @@ RecvScan(e) ==
      /\ wire' = [wire EXCEPT ![P(e)] = Tail(@)]
      /\ Eat(P(e), u)
      /\ IF u.tam = "cut"
-        THEN st' = [st EXCEPT ![e].ph = "err"] /\ out' = [kind |-> "err"]
+        THEN st' = [st EXCEPT ![e].ph = "err"] /\ out' = [kind |-> "err", why |-> "now"]
         ELSE IF isTerm
         THEN IF st[e].rlen <= MaxGarbage
              THEN st' = [st EXCEPT ![e].ph = "hs"] /\ out' = NoOut
-             ELSE st' = [st EXCEPT ![e].ph = "err"] /\ out' = [kind |-> "err"]
+             ELSE st' = [st EXCEPT ![e].ph = "err"] /\ out' = [kind |-> "err", why |-> "now"]
         ELSE IF rl >= MaxGarbage + 16
-             THEN st' = [st EXCEPT ![e].ph = "err", ![e].rlen = rl] /\ out' = [kind |-> "err"]
+             THEN st' = [st EXCEPT ![e].ph = "err", ![e].rlen = rl] /\ out' = [kind |-> "err", why |-> "now"]
              ELSE st' = [st EXCEPT ![e].rlen = rl, ![e].rgarb = Append(@, Chunk(u))] /\ out' = NoOut
   /\ last' = [a |-> "RecvScan", e |-> e]
   /\ UNCHANGED <<sc, closed, nseq, pend, napp, nfaults, used, bad>>
@@ -236,7 +248,7 @@ RecvScan(e) ==
 
 \* one iteration of the V2ReceivePacket loop (also used by CompleteHandshake
 \* for the decoys and the version packet)
-RecvPkt(e) ==
+RecvPktE(e) ==
   /\ st[e].ph \in {"hs", "ready"}
   /\ wire[P(e)] # <<>>
   /\ LET u == Head(wire[P(e)])
@@ -251,7 +263,8 @@ RecvPkt(e) ==
      /\ Eat(p, u)
      /\ IF ~bodyOK
         THEN /\ st' = [st EXCEPT ![e].ph = "err"]
-             /\ out' = [kind |-> "err"] /\ pend' = pend /\ bad' = bad
+             /\ out' = [kind |-> "err", why |-> IF lenOK THEN "auth" ELSE "desync"]
+             /\ pend' = pend /\ bad' = bad
         ELSE /\ st' = [st EXCEPT ![e].rL = @ + 1, ![e].rP = @ + 1, ![e].first = FALSE,
                                  ![e].ph = IF u.id.ign THEN @ ELSE "ready"]
              /\ IF u.id.ign THEN out' = [kind |-> "ignored"] /\ pend' = pend
@@ -266,7 +279,7 @@ RecvPkt(e) ==
   /\ UNCHANGED <<sc, closed, nseq, napp, nfaults, used>>
 
 \* V2EncPacket(contents, nil, ignore)
-Send(e, ign, size) ==
+SendE(e, ign, size) ==
   /\ e \in Senders
   /\ st[e].ph = "ready"
   /\ napp[e] < MaxApp
@@ -292,7 +305,7 @@ CanFault(e, i) ==
   /\ sc.hello = "v2"
   /\ nfaults < MaxFaults
   /\ i \in 1..Len(wire[e])
-  /\ wire[e][i].tam # "cut"
+  /\ wire[e][i].tam \notin {"cut", "cut0"}
   /\ wire[e][i].seq \in FaultSeqs
 
 FaultVars(kind, e, i, part) ==
@@ -302,7 +315,7 @@ FaultVars(kind, e, i, part) ==
   /\ out' = NoOut
   /\ UNCHANGED <<sc, st, nseq, pend, napp, eaten, clean, used, bad>>
 
-Flip(e, i, part) ==
+FlipAt(e, i, part) ==
   /\ "flip" \in FaultKinds /\ CanFault(e, i)
   /\ wire[e][i].tam = "none"
   /\ part \in (IF wire[e][i].k = "pkt" THEN {"len", "body"} ELSE {"flip"})
@@ -310,28 +323,32 @@ Flip(e, i, part) ==
   /\ closed' = closed
   /\ FaultVars("flip", e, i, part)
 
-Trunc(e, i) ==
+\* how = "cut": the stream ends inside unit i; for the initiator's key unit
+\* "cut" means more than sc.pm bytes arrive (the responder sees the mismatch
+\* with the v1 prefix) and "cut0" means at most sc.pm bytes arrive
+TruncAt(e, i, how) ==
   /\ "trunc" \in FaultKinds /\ CanFault(e, i)
   /\ ~closed[e]
-  /\ wire' = [wire EXCEPT ![e] = Append(SubSeq(@, 1, i - 1), [@[i] EXCEPT !.tam = "cut"])]
+  /\ how = "cut0" => (e = "I" /\ wire[e][i].k = "key")
+  /\ wire' = [wire EXCEPT ![e] = Append(SubSeq(@, 1, i - 1), [@[i] EXCEPT !.tam = how])]
   /\ closed' = [closed EXCEPT ![e] = TRUE]
-  /\ FaultVars("trunc", e, i, "cut")
+  /\ FaultVars("trunc", e, i, how)
 
-Drop(e, i) ==
+DropAt(e, i) ==
   /\ "drop" \in FaultKinds /\ CanFault(e, i)
   /\ wire[e][i].k # "key"
   /\ wire' = [wire EXCEPT ![e] = SubSeq(@, 1, i - 1) \o SubSeq(@, i + 1, Len(@))]
   /\ closed' = closed
   /\ FaultVars("drop", e, i, "all")
 
-Dup(e, i) ==
+DupAt(e, i) ==
   /\ "dup" \in FaultKinds /\ CanFault(e, i)
   /\ wire[e][i].k # "key"
   /\ wire' = [wire EXCEPT ![e] = SubSeq(@, 1, i) \o SubSeq(@, i, Len(@))]
   /\ closed' = closed
   /\ FaultVars("dup", e, i, "all")
 
-Swap(e, i) ==
+SwapAt(e, i) ==
   /\ "swap" \in FaultKinds /\ CanFault(e, i)
   /\ i + 1 <= Len(wire[e])
   /\ wire[e][i].k # "key" /\ wire[e][i + 1].tam # "cut"
@@ -339,16 +356,20 @@ Swap(e, i) ==
   /\ closed' = closed
   /\ FaultVars("swap", e, i, "all")
 
-Fault ==
-  \E e \in E : \E i \in 1..Len(wire[e]) :
-     \/ \E part \in {"len", "body", "flip"} : Flip(e, i, part)
-     \/ Trunc(e, i) \/ Drop(e, i) \/ Dup(e, i) \/ Swap(e, i)
+\* Each action is one parameterless definition whose body is a conjunction, so
+\* that TLC reports (coverage, simulation traces, graph labels) under that name.
+RecvScan == TRUE /\ \E e \in E : RecvScanE(e)
+RecvPkt  == TRUE /\ \E e \in E : RecvPktE(e)
+Send     == TRUE /\ \E e \in E : \E ign \in IgnoreOpts : \E size \in Sizes : SendE(e, ign, size)
+Flip     == TRUE /\ \E e \in E : \E i \in 1..Len(wire[e]) : \E part \in {"len", "body", "flip"} : FlipAt(e, i, part)
+Trunc    == TRUE /\ \E e \in E : \E i \in 1..Len(wire[e]) : \E how \in {"cut", "cut0"} : TruncAt(e, i, how)
+Drop     == TRUE /\ \E e \in E : \E i \in 1..Len(wire[e]) : DropAt(e, i)
+Dup      == TRUE /\ \E e \in E : \E i \in 1..Len(wire[e]) : DupAt(e, i)
+Swap     == TRUE /\ \E e \in E : \E i \in 1..Len(wire[e]) : SwapAt(e, i)
 
 Next ==
-  \/ ISendKey \/ RRecvKey \/ IRecvKey
-  \/ \E e \in E : RecvScan(e) \/ RecvPkt(e)
-  \/ \E e \in E : \E ign \in IgnoreOpts : \E size \in Sizes : Send(e, ign, size)
-  \/ Fault
+  \/ ISendKey \/ RRecvKey \/ IRecvKey \/ RecvScan \/ RecvPkt \/ Send
+  \/ Flip \/ Trunc \/ Drop \/ Dup \/ Swap
 
 Spec == Init /\ [][Next]_vars
 
